@@ -113,6 +113,9 @@ func windowScenario(c *sup.Ctx, r *rng.R, props []string) {
 					run{"WriteSubDoc@cas", func(k string) (conc.WindowResult, string) { return conc.SubdocWindow(b, k, pre, rival, true, false) }},
 					run{"SubdocInsert@cas", func(k string) (conc.WindowResult, string) { return conc.SubdocWindow(b, k, pre, rival, true, true) }})
 			}
+			if pre == "live" {
+				runs = append(runs, run{"WriteUpdateWithXattrs(tombstone)", func(k string) (conc.WindowResult, string) { return conc.WriteUpdateTombstoneWindow(b, k, rival) }})
+			}
 			if pre == "live" && rival == "Set" {
 				// what an attempt that lost its CAS check asked for (expiry, macro specs) must not leak into the one that wins
 				leak := []string{"C03", "C07", "C14"}
